@@ -22,7 +22,7 @@ RULE = (
     "type, link list (copy, hardlink, symlink, reflink+copy, hardlink+copy, symlink+copy; passed to "
     "apply or configured on the cache), cache class, delete on/off, relink, update_meta, state on/off, "
     "and cache objects removed (source unavailable). old = DataIndex of build_entries(compute_hash=True) "
-    "over the workspace. Oracle: os.walk of the workspace vs the flat model of T (files, bytes read "
+    "over the workspace, or (first compare only, drawn) index.build.build() without hashes. Oracle: os.walk of the workspace vs the flat model of T (files, bytes read "
     "through links, directories, x bits), a second compare(fresh old, freshly constructed target) with "
     "empty files_create/files_delete/dirs_create/dirs_delete, survival of prior files outside T when "
     "delete is off, every unavailable source reported to the error callback. Non-trivial = prior "
@@ -33,7 +33,9 @@ ASSUMPTIONS = [
     "the target carries an explicit directory entry for every parent (what DVC's loader produces); implicit "
     "parents are only exercised with links=[copy] and delete on, and directories the index has no entry for "
     "are ignored in the second compare's dirs_delete",
-    "the old index is the workspace built with hashes (build_entries(compute_hash=True))",
+    "the old index is the workspace built with hashes (build_entries(compute_hash=True)); in the old_hashes=False "
+    "arm the first compare gets the hash-less index.build.build() index (every file compares as modified and is "
+    "re-created), the second compare always uses hashes",
     "the second compare uses a freshly constructed target (apply(update_meta=True) mutates the one it got)",
     "unavailable sources are exercised with link lists that do not start with symlink (a symlink to a missing "
     "object is created dangling without an error)",
@@ -244,6 +246,7 @@ PRIOR_MODE = st.sampled_from(["plain", "plain", "checkout"])
 ONE_IN_3 = st.sampled_from([False, False, True])
 STORE = st.sampled_from(ops.STORE_KINDS)
 DELETE = st.sampled_from([True, True, True, False])
+OLD_HASHES = st.sampled_from([True, True, False])
 LINKS_ANY = st.sampled_from(LINKS)
 LINKS_COPY = st.sampled_from(COPY_LINKS)
 
@@ -293,6 +296,7 @@ def cases(draw):
         "state": draw(st.booleans()),
         "missing": missing,
         "old_none": draw(st.booleans()),
+        "old_hashes": draw(OLD_HASHES),
     }
 
 
@@ -360,16 +364,25 @@ def make_target(model, form, lazy, odb):
     return idx
 
 
-def build_old(root, state=None, root_entry=False):
-    """The caller's view of the workspace: build_entries with hashes. When the target has an entry for
-    the checkout root itself (a .dir object at key ()), the caller's index has one too (DVC builds the
+def build_old(root, state=None, root_entry=False, hashes=True):
+    """The caller's view of the workspace: build_entries with hashes, or (hashes=False, first compare
+    only) the public index.build.build(), which records no hashes - every file then compares as
+    modified and is re-created, which must converge all the same. When the target has an entry for the
+    checkout root itself (a .dir object at key ()), the caller's index has one too (DVC builds the
     entry of an output with build_entry and the entries below it with build_entries)."""
     from dvc_objects.fs.local import LocalFileSystem
 
     from dvc_data.index import DataIndex
-    from dvc_data.index.build import build_entries, build_entry
+    from dvc_data.index.build import build, build_entries, build_entry
 
     fs = LocalFileSystem()
+    if not hashes:
+        idx = build(root, fs)
+        if root_entry:
+            entry = build_entry(root, fs)
+            entry.key = ()
+            idx.add(entry)
+        return idx
     idx = DataIndex()
     if root_entry:
         entry = build_entry(root, fs, compute_hash=True, state=state)
@@ -469,6 +482,7 @@ def run_case(case, ctx):  # noqa: C901, PLR0912, PLR0915
     T, lazy = target_model(case)
     prior = apply_edits(T, case["edits"])
     form, links, delete = case["form"], list(case["links"]), case["delete"]
+    old_hashes = case.get("old_hashes", True)  # absent in cases saved before the dimension existed
 
     viols, classes = [], []
     with ctx.tmpdir() as d:
@@ -542,7 +556,7 @@ def run_case(case, ctx):  # noqa: C901, PLR0912, PLR0915
         try:
             old = None
             if not (case["old_none"] and not prior.files and not prior.dirs):
-                old = build_old(ws, state, root_entry=() in lazy)
+                old = build_old(ws, state, root_entry=() in lazy, hashes=old_hashes)
             else:
                 classes.append("old=None")
             target = make_target(T, form, lazy, odb)
@@ -639,6 +653,10 @@ def run_case(case, ctx):  # noqa: C901, PLR0912, PLR0915
     for flag in ("relink", "update_meta", "state", "via_odb"):
         if case[flag]:
             classes.append(flag)
+    if not old_hashes:
+        classes.append("old-without-hashes")
+        if f2d:
+            classes.append("old-without-hashes:file->hashless-dir")
     if f2d:
         classes.append("kind:file->dir")
     if d2f:
